@@ -110,3 +110,10 @@ package mailbox
 //@   modifies anyold, gmap(handled), gmap(handledn), m.status
 //@   invariant mbwf(m) && counted(m)
 //@   increases gcount(handledn, 0)
+
+// an envelope is immutable: its observers are its constructor's arguments (trusted link between the abstract
+// observers of vivid.Envelop and this implementation; (*Envelop).Message etc. return the fields)
+//@ func NewEnvelop
+//@   trusted
+//@   ensures result != nil && fresh(result) && envMessage(iface(result)) == message && envSystem(iface(result)) == system &&
+//@           envSender(iface(result)) == sender && envReceiver(iface(result)) == receiver
